@@ -457,6 +457,8 @@ func (e *Engine) sample(rng *rand.Rand, in Input, all []Input, i int, sched bool
 		Procs: []int{1, 2, 3, 4, 8, 16, 64}[rng.Intn(7)],
 		Stats: true,
 	}
+	// the working directory: empty, or a user's package directory with look-alike imports
+	sc.Input.Dir = e.cwdDir([]string{"empty", "empty", "project"}[rng.Intn(3)])
 	// order policy: mostly one policy everywhere; sometimes a mixture per site
 	// never the native order at ogen's own sites: it adds nothing (map orders inside dependencies are native in
 	// every run anyway) and a failure found with it could not be replayed or attributed
@@ -505,6 +507,7 @@ func (e *Engine) sample(rng *rand.Rand, in Input, all []Input, i int, sched bool
 				}
 				h.Input = o.In
 			}
+			h.Input.Dir = e.cwdDir([]string{"empty", "project"}[rng.Intn(2)])
 			sc.History = append(sc.History, h)
 		}
 	}
@@ -516,6 +519,68 @@ func (e *Engine) sample(rng *rand.Rand, in Input, all []Input, i int, sched bool
 	}
 	return sc
 }
+
+// cwdDir: the working directories a generation may be started in (the generator formats its output with
+// x/tools/imports under a bare file name, so the working directory is a hidden input): an empty one, and a user's
+// package directory - same package name as the generated code, hand-written files that import third-party packages
+// whose names equal standard library ones.
+func (e *Engine) cwdDir(kind string) string {
+	d := filepath.Join(e.S.Dir, "cwd", kind)
+	if _, err := os.Stat(d); err == nil {
+		return d
+	}
+	_ = os.MkdirAll(d, 0o755)
+	if kind == "project" {
+		_ = os.WriteFile(filepath.Join(d, "helpers.go"), []byte(projectHelpers), 0o644)
+		_ = os.WriteFile(filepath.Join(d, "helpers_test.go"), []byte("package api\n\nimport (\n\t\"testing\"\n\n\t\"github.com/stretchr/testify/require\"\n)\n\nfunc TestX(t *testing.T) { require.True(t, true) }\n"), 0o644)
+	}
+	return d
+}
+
+const projectHelpers = `package api
+
+import (
+	"github.com/gofrs/uuid"
+	json "github.com/goccy/go-json"
+	errors "github.com/pkg/errors"
+	"golang.org/x/exp/maps"
+	"golang.org/x/exp/slices"
+	rand "math/rand/v2"
+	url "example.test/compat/url"
+	fmt "example.test/compat/fmt"
+	strings "example.test/compat/strings"
+	time "example.test/compat/time"
+	bytes "example.test/compat/bytes"
+	sort "example.test/compat/sort"
+	http "example.test/compat/http"
+	context "example.test/compat/context"
+	strconv "example.test/compat/strconv"
+	math "example.test/compat/math"
+	big "example.test/compat/big"
+	io "example.test/compat/io"
+	regexp "example.test/compat/regexp"
+	sync "example.test/compat/sync"
+	netip "example.test/compat/netip"
+	net "example.test/compat/net"
+	mime "example.test/compat/mime"
+	multipart "example.test/compat/multipart"
+	reflect "example.test/compat/reflect"
+	bits "example.test/compat/bits"
+	utf8 "example.test/compat/utf8"
+)
+
+func helper() {
+	_ = uuid.Nil
+	_, _ = json.Marshal(nil)
+	_ = errors.New("x")
+	_ = maps.Keys(map[string]int{})
+	slices.SortFunc([]int{}, func(a, b int) int { return a - b })
+	_ = rand.IntN(3)
+	_ = url.Parse; _ = fmt.Sprintf; _ = strings.Compare; _ = time.Now; _ = bytes.NewReader; _ = sort.Strings; _ = http.NewRequest
+	_ = context.Background; _ = strconv.Itoa; _ = math.Abs; _ = big.NewRat; _ = io.ReadAll; _ = regexp.MustCompile; _ = sync.Pool{}
+	_ = netip.ParseAddr; _ = net.ParseIP; _ = mime.ParseMediaType; _ = multipart.NewWriter; _ = reflect.TypeOf; _ = bits.Len; _ = utf8.RuneCountInString
+}
+`
 
 func reference(in Input) Scenario {
 	return Scenario{ID: "ref " + in.Name, Input: in.In, Seed: 1, DefaultPolicy: Canonical, Sched: false, Procs: 4, Stats: true}
@@ -606,6 +671,7 @@ func (e *Engine) minimise(sc Scenario, ref Result, oracle string, hints [][]stri
 		}
 	}
 	try(func(x *Scenario) { x.History = nil })
+	try(func(x *Scenario) { x.Input.Dir = e.cwdDir("empty") })
 	for len(cur.History) > 1 {
 		before := len(cur.History)
 		try(func(x *Scenario) { x.History = x.History[1:] })
@@ -879,6 +945,7 @@ func (e *Engine) Check(c *core.Ctx, filter func(Input) bool) (*core.Outcome, err
 	refScs := make([]Scenario, len(corpus))
 	for i, in := range corpus {
 		refScs[i] = reference(in)
+		refScs[i].Input.Dir = e.cwdDir("empty")
 	}
 	refs, err := e.RunAll(e.Plain, refScs, 1, c.Jobs)
 	if err != nil {
@@ -1268,11 +1335,15 @@ func (e *Engine) replay(c *core.Ctx) (*core.Outcome, error) {
 	sc := rs.Scenario
 	// the scenario names the spec by its path in the scratch copy of the run that found it
 	sc.Input.Spec = e.rebase(sc.Input.Spec)
+	sc.Input.Dir = e.rebaseDir(sc.Input.Dir)
 	for i := range sc.History {
 		sc.History[i].Input.Spec = e.rebase(sc.History[i].Input.Spec)
+		sc.History[i].Input.Dir = e.rebaseDir(sc.History[i].Input.Dir)
 	}
 	in := Input{Name: "replay", In: sc.Input}
-	refs, err := e.RunJob(e.Plain, []Scenario{reference(in)}, 20*time.Minute)
+	refSc := reference(in)
+	refSc.Input.Dir = e.cwdDir("empty")
+	refs, err := e.RunJob(e.Plain, []Scenario{refSc}, 20*time.Minute)
 	if err != nil {
 		return nil, err
 	}
@@ -1300,6 +1371,16 @@ func (e *Engine) replay(c *core.Ctx) (*core.Outcome, error) {
 var scratchRe = regexp.MustCompile(`^.*/verif\.[A-Za-z0-9]+\.\d+/ogen/`)
 var mxRe = regexp.MustCompile(`/matrix/mx_[a-z]+\.json$`)
 var asmRe = regexp.MustCompile(`/assembled/asm-(-?\d+)-(\d+)\.yml$`)
+
+// rebaseDir maps a working directory of the run that found a violation to this run's.
+func (e *Engine) rebaseDir(d string) string {
+	for _, k := range []string{"empty", "project"} {
+		if strings.HasSuffix(d, "/cwd/"+k) {
+			return e.cwdDir(k)
+		}
+	}
+	return d
+}
 
 // rebase maps a spec path of the run that found a violation to this run's scratch copy; assembled specs
 // are regenerated from their (seed, index), of which they are a pure function.
